@@ -1,0 +1,250 @@
+//go:build verif
+
+package replication
+
+// Contracts for the event header accessors and the loop-free control-event
+// body parsers (properties C16, C17, C03). Offsets, widths and type codes are
+// written from the MySQL internals manual ("Binlog Event header", "Binlog
+// Event Type"), not from this package's constants.
+
+import (
+	"github.com/Breeze0806/gobinlog/internal/vspec"
+)
+
+func specLE16(b []byte, at int) uint16 { return uint16(b[at]) | uint16(b[at+1])<<8 }
+func specLE32(b []byte, at int) uint32 {
+	return uint32(b[at]) | uint32(b[at+1])<<8 | uint32(b[at+2])<<16 | uint32(b[at+3])<<24
+}
+func specLE64(b []byte, at int) uint64 {
+	return uint64(specLE32(b, at)) | uint64(specLE32(b, at+4))<<32
+}
+
+// specEventValid is the statement of C17: a full 19-byte header whose length field equals the buffer length.
+func specEventValid(ev []byte) bool {
+	return len(ev) >= 19 && uint64(specLE32(ev, 9)) == uint64(len(ev))
+}
+
+// ---- IsValid: exact characterisation, for every byte string ----
+
+// Event buffers are shorter than 4 GiB (the length field is 32 bits wide; a MySQL packet sequence
+// cannot carry a longer event). Stated, not assumed silently.
+func vc_binlogEvent_IsValid_requires(ev binlogEvent) bool { return len(ev) <= 0xffffffff }
+
+func vc_binlogEvent_IsValid_ensures_iff(ev binlogEvent, res bool) bool {
+	return res == specEventValid(ev)
+}
+
+// ---- header accessors: total on valid buffers, equal to the documented little-endian fields ----
+
+func vc_binlogEvent_Type_requires(ev binlogEvent) bool         { return len(ev) >= 19 }
+func vc_binlogEvent_Flags_requires(ev binlogEvent) bool        { return len(ev) >= 19 }
+func vc_binlogEvent_Timestamp_requires(ev binlogEvent) bool    { return len(ev) >= 19 }
+func vc_binlogEvent_ServerID_requires(ev binlogEvent) bool     { return len(ev) >= 19 }
+func vc_binlogEvent_Length_requires(ev binlogEvent) bool       { return len(ev) >= 19 }
+func vc_binlogEvent_NextPosition_requires(ev binlogEvent) bool { return len(ev) >= 19 }
+
+func vc_binlogEvent_Type_ensures_field(ev binlogEvent, res byte) bool { return res == ev[4] }
+func vc_binlogEvent_Flags_ensures_field(ev binlogEvent, res uint16) bool {
+	return res == specLE16(ev, 17)
+}
+func vc_binlogEvent_Timestamp_ensures_field(ev binlogEvent, res uint32) bool {
+	return res == specLE32(ev, 0)
+}
+func vc_binlogEvent_ServerID_ensures_field(ev binlogEvent, res uint32) bool {
+	return res == specLE32(ev, 5)
+}
+func vc_binlogEvent_Length_ensures_field(ev binlogEvent, res uint32) bool {
+	return res == specLE32(ev, 9)
+}
+
+// next_position is an unsigned 32-bit offset: every value 0..2^32-1 must come out non-negative and exact.
+func vc_binlogEvent_NextPosition_ensures_field(ev binlogEvent, res int64) bool {
+	return res >= 0 && uint64(res) == uint64(specLE32(ev, 13))
+}
+
+// ---- event classification by type code (codes from the manual) ----
+
+func vc_binlogEvent_IsFormatDescription_requires(ev binlogEvent) bool { return len(ev) >= 19 }
+func vc_binlogEvent_IsQuery_requires(ev binlogEvent) bool             { return len(ev) >= 19 }
+func vc_binlogEvent_IsRotate_requires(ev binlogEvent) bool            { return len(ev) >= 19 }
+func vc_binlogEvent_IsXID_requires(ev binlogEvent) bool               { return len(ev) >= 19 }
+func vc_binlogEvent_IsIntVar_requires(ev binlogEvent) bool            { return len(ev) >= 19 }
+func vc_binlogEvent_IsRand_requires(ev binlogEvent) bool              { return len(ev) >= 19 }
+func vc_binlogEvent_IsPreviousGTIDs_requires(ev binlogEvent) bool     { return len(ev) >= 19 }
+func vc_binlogEvent_IsRowsQuery_requires(ev binlogEvent) bool         { return len(ev) >= 19 }
+func vc_binlogEvent_IsTableMap_requires(ev binlogEvent) bool          { return len(ev) >= 19 }
+func vc_binlogEvent_IsWriteRows_requires(ev binlogEvent) bool         { return len(ev) >= 19 }
+func vc_binlogEvent_IsUpdateRows_requires(ev binlogEvent) bool        { return len(ev) >= 19 }
+func vc_binlogEvent_IsDeleteRows_requires(ev binlogEvent) bool        { return len(ev) >= 19 }
+
+func vc_binlogEvent_IsFormatDescription_ensures_code(ev binlogEvent, res bool) bool {
+	return res == (ev[4] == 15)
+}
+func vc_binlogEvent_IsQuery_ensures_code(ev binlogEvent, res bool) bool  { return res == (ev[4] == 2) }
+func vc_binlogEvent_IsRotate_ensures_code(ev binlogEvent, res bool) bool { return res == (ev[4] == 4) }
+func vc_binlogEvent_IsXID_ensures_code(ev binlogEvent, res bool) bool    { return res == (ev[4] == 16) }
+func vc_binlogEvent_IsIntVar_ensures_code(ev binlogEvent, res bool) bool { return res == (ev[4] == 5) }
+func vc_binlogEvent_IsRand_ensures_code(ev binlogEvent, res bool) bool   { return res == (ev[4] == 13) }
+func vc_binlogEvent_IsPreviousGTIDs_ensures_code(ev binlogEvent, res bool) bool {
+	return res == (ev[4] == 35)
+}
+func vc_binlogEvent_IsRowsQuery_ensures_code(ev binlogEvent, res bool) bool {
+	return res == (ev[4] == 29)
+}
+func vc_binlogEvent_IsTableMap_ensures_code(ev binlogEvent, res bool) bool {
+	return res == (ev[4] == 19)
+}
+func vc_binlogEvent_IsWriteRows_ensures_code(ev binlogEvent, res bool) bool {
+	return res == (ev[4] == 23 || ev[4] == 30)
+}
+func vc_binlogEvent_IsUpdateRows_ensures_code(ev binlogEvent, res bool) bool {
+	return res == (ev[4] == 24 || ev[4] == 31)
+}
+func vc_binlogEvent_IsDeleteRows_ensures_code(ev binlogEvent, res bool) bool {
+	return res == (ev[4] == 25 || ev[4] == 32)
+}
+
+func vc_mysql56BinlogEvent_IsGTID_requires(ev mysql56BinlogEvent) bool {
+	return len(ev.binlogEvent) >= 19
+}
+func vc_mysql56BinlogEvent_IsGTID_ensures_code(ev mysql56BinlogEvent, res bool) bool {
+	return res == (ev.binlogEvent[4] == 33)
+}
+func vc_mariadbBinlogEvent_IsGTID_requires(ev mariadbBinlogEvent) bool {
+	return len(ev.binlogEvent) >= 19
+}
+func vc_mariadbBinlogEvent_IsGTID_ensures_code(ev mariadbBinlogEvent, res bool) bool {
+	return res == (ev.binlogEvent[4] == 162)
+}
+
+// ---- a decoded format description as the other parsers need it ----
+
+// specValidFormat is the validity predicate of a BinlogFormat obtained from Format().
+func specValidFormat(f BinlogFormat) bool {
+	return f.FormatVersion == 4 && f.HeaderLength >= 19
+}
+
+// ---- FORMAT_DESCRIPTION_EVENT ----
+//   19 bytes header | 2 version | 50 server version, 0-padded | 4 timestamp | 1 header length |
+//   n per-type header sizes | 1 checksum algorithm | 4 checksum
+
+func vc_binlogEvent_Format_requires(ev binlogEvent) bool {
+	return len(ev) >= 19+2+50+4+1+1+4
+}
+
+func vc_binlogEvent_Format_ensures_version(ev binlogEvent, f BinlogFormat, err error) bool {
+	return f.FormatVersion == specLE16(ev, 19) &&
+		(err == nil) == (specLE16(ev, 19) == 4 && ev[19+56] >= 19)
+}
+
+func vc_binlogEvent_Format_ensures_fields(ev binlogEvent, f BinlogFormat, err error) bool {
+	if err != nil {
+		return true
+	}
+	return f.HeaderLength == ev[19+56] &&
+		f.ChecksumAlgorithm == ev[len(ev)-5] &&
+		vspec.Window(f.HeaderSizes, ev, 19+57, len(ev)-5) &&
+		specValidFormat(f)
+}
+
+// the server version is the 50-byte field with trailing NULs (and only those) removed
+func vc_binlogEvent_Format_ensures_serverVersion(ev binlogEvent, f BinlogFormat, err error) bool {
+	if err != nil {
+		return true
+	}
+	n := len(f.ServerVersion)
+	return n <= 50 &&
+		vspec.EqStr(f.ServerVersion, ev[21:21+n]) &&
+		(n == 0 || ev[21+n-1] != 0) &&
+		vspec.Forall(n, 50, func(k int) bool { return ev[21+k] == 0 })
+}
+
+// ---- ROTATE_EVENT: 8 bytes position, rest file name ----
+
+func vc_binlogEvent_Rotate_requires(ev binlogEvent, f BinlogFormat) bool {
+	return specValidFormat(f) && len(ev) >= int(f.HeaderLength)
+}
+
+func vc_binlogEvent_Rotate_ensures_body(ev binlogEvent, f BinlogFormat, name string, off int64, err error) bool {
+	h := int(f.HeaderLength)
+	if len(ev)-h < 8 {
+		return err != nil
+	}
+	return err == nil && uint64(off) == specLE64(ev, h) && vspec.EqStr(name, ev[h+8:])
+}
+
+// ---- INTVAR_EVENT: 1 byte id, 8 bytes value ----
+
+func vc_binlogEvent_IntVar_requires(ev binlogEvent, f BinlogFormat) bool {
+	return specValidFormat(f) && len(ev) >= int(f.HeaderLength)+9
+}
+
+func vc_binlogEvent_IntVar_ensures_body(ev binlogEvent, f BinlogFormat, id byte, val uint64, err error) bool {
+	h := int(f.HeaderLength)
+	if ev[h] != 1 && ev[h] != 2 {
+		return err != nil
+	}
+	return err == nil && id == ev[h] && val == specLE64(ev, h+1)
+}
+
+// ---- RAND_EVENT: two 8-byte seeds ----
+
+func vc_binlogEvent_Rand_requires(ev binlogEvent, f BinlogFormat) bool {
+	return specValidFormat(f) && len(ev) >= int(f.HeaderLength)+16
+}
+
+func vc_binlogEvent_Rand_ensures_body(ev binlogEvent, f BinlogFormat, s1 uint64, s2 uint64, err error) bool {
+	h := int(f.HeaderLength)
+	return err == nil && s1 == specLE64(ev, h) && s2 == specLE64(ev, h+8)
+}
+
+// ---- table id of TABLE_MAP / ROWS events: 4 bytes when the post-header is 6 bytes long, else 6 bytes ----
+
+// The code computes the offsets in 8-bit arithmetic (pos is a byte), so header lengths of 250 and more would
+// wrap; MySQL's common header length is 19. Stated as a precondition (observation O4 in DESIGN.md).
+func vc_binlogEvent_TableID_requires(ev binlogEvent, f BinlogFormat) bool {
+	return specValidFormat(f) && f.HeaderLength <= 249 && len(ev) >= int(f.HeaderLength)+6 && ev[4] >= 1 && int(ev[4]) <= len(f.HeaderSizes)
+}
+
+func vc_binlogEvent_TableID_ensures_id(ev binlogEvent, f BinlogFormat, id uint64) bool {
+	h := int(f.HeaderLength)
+	if f.HeaderSizes[ev[4]-1] == 6 {
+		return id == uint64(specLE32(ev, h))
+	}
+	return id == uint64(specLE32(ev, h))|uint64(specLE16(ev, h+4))<<32
+}
+
+// ---- checksum stripping ----
+// CRC32 (algorithm 1): the event is the same bytes without the last four; off (0) / undefined (255): unchanged.
+
+func vc_mysql56BinlogEvent_StripChecksum_requires(ev mysql56BinlogEvent, f BinlogFormat) bool {
+	return len(ev.binlogEvent) >= 19
+}
+
+func vc_mysql56BinlogEvent_StripChecksum_ensures_view(ev mysql56BinlogEvent, f BinlogFormat, out BinlogEvent, sum []byte, err error) bool {
+	b := []byte(ev.binlogEvent)
+	switch f.ChecksumAlgorithm {
+	case 0, 255:
+		o, ok := out.(mysql56BinlogEvent)
+		return err == nil && ok && sum == nil && vspec.Window(o.binlogEvent, b, 0, len(b))
+	case 1:
+		o, ok := out.(mysql56BinlogEvent)
+		return err == nil && ok && vspec.Window(o.binlogEvent, b, 0, len(b)-4) && vspec.Window(sum, b, len(b)-4, len(b))
+	}
+	return err != nil
+}
+
+func vc_mariadbBinlogEvent_StripChecksum_requires(ev mariadbBinlogEvent, f BinlogFormat) bool {
+	return len(ev.binlogEvent) >= 19
+}
+
+func vc_mariadbBinlogEvent_StripChecksum_ensures_view(ev mariadbBinlogEvent, f BinlogFormat, out BinlogEvent, sum []byte, err error) bool {
+	b := []byte(ev.binlogEvent)
+	switch f.ChecksumAlgorithm {
+	case 0, 255:
+		o, ok := out.(mariadbBinlogEvent)
+		return err == nil && ok && sum == nil && vspec.Window(o.binlogEvent, b, 0, len(b))
+	}
+	o, ok := out.(mariadbBinlogEvent)
+	return err == nil && ok && vspec.Window(o.binlogEvent, b, 0, len(b)-4) && vspec.Window(sum, b, len(b)-4, len(b))
+}
